@@ -8,14 +8,15 @@ BUDGET = {"quick": 45, "thorough": 1500, "search": 200}
 def explore(run, driver, budget, prop, rule, pi_cycle=("nonparametric", "gaussian", "bootstrap"), corpus=()):
     run.info["rule"] = rule
     n = BUDGET[budget]
+    cases = []
     if budget != "search":
-        for c in corpus:
-            A.run_and_check(run, c(run.rng), driver, (prop,))
+        cases += [c(run.rng) for c in corpus]
     for i in range(n):
         pi = pi_cycle[i % len(pi_cycle)]
         size = "small" if (budget == "quick" or run.rng.random() < 0.8) else "medium"
-        case = A.gen_case(run.rng, pi_method=pi, size=size)
-        A.run_and_check(run, case, driver, (prop,))
+        cases.append(A.gen_case(run.rng, pi_method=pi, size=size))
+    for k in range(0, len(cases), 100):
+        A.run_batch(run, cases[k:k + 100], driver, (prop,))
 
 
 def replay(run, driver, payload, prop):
